@@ -68,7 +68,9 @@ func (s *Struct) Assign(gen Generator, ctx *MethodContext, assignTo *AssignTo, s
 			// blank fields cannot be referred to, there is nothing to set.
 			continue
 		}
-		if !targetField.Exported() && ctx.Conf.IgnoreUnexported {
+		if !targetField.Exported() && ctx.Conf.IgnoreUnexported && fieldMapping.Source == "" && fieldMapping.Function == nil {
+			// (a field with a goverter:map line of its own is not skipped:
+			// the line takes effect or is reported)
 			continue
 		}
 
